@@ -1,5 +1,7 @@
 PROP = dict(
-    lean_modules=["DefraModel.Props.C10"],
+    lean_modules=["DefraModel.Props.C10", "DefraModel.Oblig.C10"],
+    extract=dict(obligations=['Defra.Oblig.C10.every_source_is_behind_the_permission_filter', 'Defra.Oblig.C10.raw_sources_only_inside_the_wrapping_fetcher', 'Defra.Oblig.C10.facts_non_empty']),
+    oblig_modules=["DefraModel.Oblig.C10"],
     props_modules=["DefraModel.Props.C10"],
     engines=[dict(name="acp", drv="acp", timeout=5400)],
     rule=("a node with local document access control, two related policy-protected collections (Author with an indexed field, Book with a foreign key), owner O, grantee R, stranger S and the anonymous requester A; "
@@ -17,13 +19,15 @@ PROP = dict(
         "collection-level commits of @branchable collections (which link the composites of all documents) are not generated",
         "the relationship store of the local access-control engine is trusted (acp_core): the model keeps the grant table as a list",
     ],
-    trusted_base=["harness/acp (twin construction from the harness's own grant table), harness/node, Driver/Acp.lean"],
+    trusted_base=["harness/acp (twin construction from the harness's own grant table), harness/node, Driver/Acp.lean",
+                  "tools/extract (syntactic go/ast fact extractor: fetcher constructions in source order) and the expectations in DefraModel/Oblig/C10.lean"],
 )
 META = dict(
     text=("Lean theorems about the access-control model in which every access path (scan, index lookup, by-id, time travel, both join directions, count, commit history, listing with deleted) applies the permission "
           "check where the code applies it: each path's answer equals its answer on the database that never contained the unreadable documents; inserting an unreadable document anywhere changes no answer; a mutation "
           "attempt without permission changes nothing and is answered like an attempt on a missing document; a grant / the revocation of the last relation decide the very next state. Tied to /repo by comparing, per "
-          "requester, what every path yields with the model, and by answering ~80 generated requests on the node and on a twin node that never contained the unreadable documents."),
+          "requester, what every path yields with the model, and by answering ~80 generated requests on the node and on a twin node that never contained the unreadable documents; and by kernel-checked obligations over facts regenerated from the sources each run "
+          "(every raw document source of wrappingFetcher.Start is constructed before the permission wrap; raw sources are constructed only inside the fetcher package)."),
     design_ref="DESIGN.md section 8, C10",
     note=("Trusted: Lean kernel; harness/acp; the local access-control engine's relationship store. PARTIAL: the model's query language is the list of access paths above; that the planner composes only these paths "
           "(every fetch goes through the permissioned wrapper) is what the twin comparison over generated request shapes checks, it is not proved from the planner's source."),
